@@ -119,3 +119,24 @@ Theorem C02_smbo_proposal : forall sp cons (comb : list pos) acq i p, dims_ok sp
   forallb (emit_b sp cons) comb = true -> proposal_ok comb acq i p = true -> emit_ok sp cons p.
 Proof. exact smbo_proposal_emit. Qed.
 Print Assumptions C02_smbo_proposal.
+
+Require Import PyPrims PyPrimsQ CoreGen CoreTie.
+
+(* ---------- the moves GENERATED from /repo's core_optimizer.py (generated/CoreGen.v; ties in proofs/CoreTie.v): the only Ok exit of
+   the source's rejection loops is a feasible candidate *)
+Theorem C02_source_move_random_feasible : forall sp cons fuel self s' p,
+  g_core_move_random sp cons fuel self = Ok (s', p) -> feasible sp cons p = Ok true.
+Proof. intros sp cons fuel self s' p H. destruct (source_move_random_ok sp cons fuel self s' p H) as [[_ A] _]. exact A. Qed.
+Print Assumptions C02_source_move_random_feasible.
+
+Theorem C02_source_move_climb_feasible : forall sp cons fuel self p0 s' p, dims_ok sp -> nan_free (cg_tape self) ->
+  g_core_move_climb sp cons fuel self p0 = Ok (s', p) -> feasible sp cons p = Ok true.
+Proof. intros sp cons fuel self p0 s' p Hd Hn H. destruct (source_move_climb_ok sp cons fuel self p0 s' p Hd Hn H) as [[_ A] _]. exact A. Qed.
+Print Assumptions C02_source_move_climb_feasible.
+
+Theorem C02_source_random_iteration_feasible : forall sp cons rrp_m rrp_e body fuel self s' p,
+  (forall s0 s1 p0, nan_free (cg_tape s0) -> body s0 = Ok (s1, p0) ->
+     emit_ok sp cons p0 /\ is_suffix (cg_tape s1) (cg_tape s0) /\ cg_ncalls s0 < cg_ncalls s1) ->
+  nan_free (cg_tape self) -> g_core_random_iteration sp cons rrp_m rrp_e body fuel self = Ok (s', p) -> feasible sp cons p = Ok true.
+Proof. intros sp cons rm re body fuel self s' p Hb Hn H. destruct (source_random_iteration_ok sp cons rm re body fuel self s' p Hb Hn H) as [[_ A] _]. exact A. Qed.
+Print Assumptions C02_source_random_iteration_feasible.
